@@ -1,10 +1,10 @@
 package main
 
 import (
-	"strings"
-	"go/types"
 	"fmt"
 	"go/token"
+	"go/types"
+	"strings"
 
 	"golang.org/x/tools/go/ssa"
 )
@@ -23,7 +23,7 @@ func init() {
 			"(R7) the paging geometry constants satisfy shifts[i] = 12 + bits of all lower levels, one page per table, 48 translated bits, the recursive slot 511/511/511/511 " +
 			"and the temporary page 510/511/511/511, and walk computes entry = tableAddr + ((virt >> shifts[level]) & (2^bits[level] - 1)) * 8, next table = entry << bits[level], " +
 			"starting at pdtVirtualAddr, stopping when the walker returns false.",
-		EnumRule: "obligations per rule and construct",
+		EnumRule:    "obligations per rule and construct",
 		Assumptions: []string{"that the structure R7 decides implements the x86-64 recursive-mapping scheme is the standard argument and is not mechanised; 'other pages unchanged' is not decided"},
 		Controls: []Control{
 			{Name: "a page of an identity region skipped", File: "kernel/mm/vmm/map.go", Old: "\tfor curPage := startPage; curPage < startPage+pageCount; curPage++ {\n\t\tif err := mapFn(curPage, mm.Frame(curPage), flags); err != nil {", New: "\tfor curPage := startPage; curPage < startPage+pageCount; curPage++ {\n\t\tif flags == 0 && curPage > startPage {\n\t\t\tcontinue\n\t\t}\n\t\tif err := mapFn(curPage, mm.Frame(curPage), flags); err != nil {", Expect: "C04.R6 region-helper mm/vmm.IdentityMapRegion"},
@@ -49,10 +49,10 @@ func init() {
 }
 
 type c04 struct {
-	*c06 // reuse anchors of C06 (same package)
-	pdtMap, pdtUnmap              *ssa.Function
-	levels                        uint64
-	flagHuge                      uint64
+	*c06             // reuse anchors of C06 (same package)
+	pdtMap, pdtUnmap *ssa.Function
+	levels           uint64
+	flagHuge         uint64
 }
 
 func runC04(c *Ctx) {
@@ -74,7 +74,7 @@ func runC04(c *Ctx) {
 		"pte.SetFlags": base.setFlags, "pte.ClearFlags": base.clearFlags, "pte.HasFlags": base.hasFlags, "mm.AllocFrame": base.allocFrame,
 		"kernel.Memset": base.memset, "cpu.FlushTLBEntry": base.flush, "cpu.ActivePDT": base.activePDT, "vmm.pageTableEntry": base.pte,
 		"PageDirectoryTable.pdtFrame": base.pdtFrameF,
-		"PageDirectoryTable.Map": x.pdtMap, "PageDirectoryTable.Unmap": x.pdtUnmap,
+		"PageDirectoryTable.Map":      x.pdtMap, "PageDirectoryTable.Unmap": x.pdtUnmap,
 	} {
 		if isNilIface(v) {
 			c.unresolved("C04.R1", name)
@@ -168,8 +168,14 @@ func (x *c04) r1r2r4r5() {
 		if outer == x.mapFn {
 			want := []func(n int) bool{
 				func(n int) bool { st, ok := g.Ins[n].(*ssa.Store); return ok && st.Addr == pte && isZeroConst(st.Val) },
-				func(n int) bool { _, a, ok := methodCall(m, g.Ins[n], x.setFrame); return ok && isParamValue(a[0], frameP) },
-				func(n int) bool { _, a, ok := methodCall(m, g.Ins[n], x.setFlags); return ok && isParamValue(a[0], flagsP) },
+				func(n int) bool {
+					_, a, ok := methodCall(m, g.Ins[n], x.setFrame)
+					return ok && isParamValue(a[0], frameP)
+				},
+				func(n int) bool {
+					_, a, ok := methodCall(m, g.Ins[n], x.setFlags)
+					return ok && isParamValue(a[0], flagsP)
+				},
 			}
 			names := []string{"*pte = 0", "SetFrame(frame)", "SetFlags(flags)"}
 			if len(writes) != 3 {
@@ -822,7 +828,6 @@ func (x *c04) regionRule(rule string, names []string) {
 		c.check(bad == "", rule, key, "maps exactly cdiv(size,4096) pages, page and frame advance together by one, flags unchanged, first error returned", bad, g.posOf(cn))
 	}
 }
-
 
 // unguardedSub finds, in the expression tree of v (through arithmetic and
 // conversions, not through merges or calls), an unsigned subtraction x - k
